@@ -49,7 +49,8 @@ def convert_generic_body_to_phs(
     when no input is really passed (it is still necessary/used for e.g. shape information).
     For PHS, this unused block argument creates an extra hardware port, which is unnecessary/unwanted.
     """
-    for block_arg in body_copy.block.args:
+    # Only the output arguments: an input the body does not read keeps its port, the ports behind it keep their number
+    for block_arg in body_copy.block.args[len(generic_op.inputs) :]:
         if block_arg.uses.get_length() == 0:
             body_copy.block.erase_arg(block_arg)
 
